@@ -189,6 +189,10 @@ func (h *header) encode(dst []byte) (int, error) {
 func (h *header) decode(src []byte) (int, error) {
 	total := 0
 
+	if len(src) < 2 {
+		return total, fmt.Errorf("header/Decode: Insufficient buffer size. Expecting at least %d, got %d", 2, len(src))
+	}
+
 	h.dbuf = src
 
 	mtype := h.Type()
@@ -216,6 +220,9 @@ func (h *header) decode(src []byte) (int, error) {
 	total++
 
 	remlen, m := binary.Uvarint(src[total:])
+	if m <= 0 || m > 4 {
+		return total, fmt.Errorf("header/Decode: Invalid remaining length encoding")
+	}
 	total += m
 	h.remlen = int32(remlen)
 
@@ -226,6 +233,9 @@ func (h *header) decode(src []byte) (int, error) {
 	if int(h.remlen) > len(src[total:]) {
 		return total, fmt.Errorf("header/Decode: Remaining length (%d) is greater than remaining buffer (%d)", h.remlen, len(src[total:]))
 	}
+
+	// The message ends with its remaining length, whatever follows in src.
+	h.dbuf = src[:total+int(h.remlen)]
 
 	return total, nil
 }
